@@ -29,6 +29,10 @@ Qed.
 Lemma Qltb_false : forall a b, Qltb a b = false <-> b <= a.
 Proof. intros a b. unfold Qltb. rewrite negb_false_iff. apply Qle_bool_iff. Qed.
 
+(* kernel conversion hint: compare `perp_search ...` with `perp_loop 200 ...` by unfolding
+   perp_search first (the other order unfolds the 200-step fixpoint on both sides) *)
+Strategy expand [perp_search].
+
 Section Perp.
   Variable expf logf : Q -> Q.
   Variable dbl_min tol : Q.
@@ -87,15 +91,22 @@ Section Perp.
       apply IH. right. discriminate.
   Qed.
 
-  Theorem perp_search_some : forall self dd perp,
-    exists b ev beta, perp_search self dd perp = (b, Some ev) /\ ev = evaluate self dd beta.
+  Lemma perp_loop_result : forall fuel self dd perp st, fuel <> 0%nat ->
+    exists b ev beta, perp_loop fuel self dd perp st None = (b, Some ev) /\ ev = evaluate self dd beta.
   Proof.
-    intros self dd perp. unfold Tsne_Model.perp_search.
-    pose proof (perp_loop_some 200 self dd perp (1, None, None) None (or_introl ltac:(discriminate))) as Hs.
-    destruct (perp_loop 200 self dd perp (1, None, None) None) as [b o] eqn:E. cbn [snd] in Hs.
+    intros fuel self dd perp st Hf.
+    pose proof (perp_loop_some fuel self dd perp st None (or_introl Hf)) as Hs.
+    destruct (perp_loop fuel self dd perp st None) as [b o] eqn:E. cbn [snd] in Hs.
     destruct o as [ev|]; [|congruence].
     destruct (perp_loop_row _ _ _ _ _ _ _ _ E ltac:(discriminate) ev eq_refl) as [beta Hb].
     now exists b, ev, beta.
+  Qed.
+
+  Theorem perp_search_some : forall self dd perp,
+    exists b ev beta, perp_search self dd perp = (b, Some ev) /\ ev = evaluate self dd beta.
+  Proof.
+    intros self dd perp.
+    exact (perp_loop_result 200 self dd perp (1, None, None) ltac:(discriminate)).
   Qed.
 
   (* ---------- the bracket ---------- *)
@@ -116,16 +127,14 @@ Section Perp.
   Proof.
     intros lp ev [[beta minb] maxb] (Hpos & Hlo & Hhi & Hmm & Hp1 & Hp2) _.
     unfold next. destruct (Qltb 0 (e_H ev - lp)).
-    - destruct maxb as [mb|]; cbn [bracket]; repeat split; try assumption; try lra.
-      + apply Qle_shift_div_l; lra.
-      + apply Qle_shift_div_r; lra.
-      + apply Qlt_shift_div_l; lra.
-    - destruct minb as [mb|]; cbn [bracket]; repeat split; try assumption; try lra.
-      + apply Qlt_shift_div_l; lra.
-      + apply Qle_shift_div_l; lra.
-      + apply Qle_shift_div_r; lra.
-      + apply Qlt_shift_div_l; lra.
-      + apply Qle_shift_div_r; lra.
+    - destruct maxb as [mb|]; destruct minb as [ma|]; cbv beta iota in *; cbn [bracket];
+        (split; [|split; [|split; [|split; [|split]]]]); try exact I;
+        first [ lra | apply Qlt_shift_div_l; lra | apply Qle_shift_div_l; lra
+              | apply Qle_shift_div_r; lra | apply Qlt_shift_div_r; lra ].
+    - destruct maxb as [mb|]; destruct minb as [ma|]; cbv beta iota in *; cbn [bracket];
+        (split; [|split; [|split; [|split; [|split]]]]); try exact I;
+        first [ lra | apply Qlt_shift_div_l; lra | apply Qle_shift_div_l; lra
+              | apply Qle_shift_div_r; lra | apply Qlt_shift_div_r; lra ].
   Qed.
 
   (* ---------- sums ---------- *)
@@ -225,6 +234,6 @@ End Perp.
    theorem — any functions do; take exp = fun _ => 1, log = fun _ => 0: H = 0 + 0,
    log(perplexity) = 0, so the first evaluation is accepted. *)
 Example perplexity_exit_nonvacuous :
-  exists ev, perp_search (fun _ => 1) (fun _ => 0) 0 (1 # 100000) (Some 0%nat) [0; 1; 4] 2 = (true, Some ev).
+  exists ev, perp_search (fun _ => 1) (fun _ => 0) 0 (1 # 100000) (Some 0%nat) [0; 0; 0] 2 = (true, Some ev).
 Proof. eexists. vm_compute. reflexivity. Qed.
 
